@@ -16,13 +16,28 @@ structure Alt where
   onInCur : Bool     -- is the flag on in the current configuration?
   obs : T            -- model observation with just this flag toggled
 
+/-- structural match where the atom `_` in the model's observation wmatch anything -/
+partial def wmatch : T → T → Bool
+  | .atom "_", _ => true
+  | .atom a, .atom b => a == b
+  | .node t as, .node u bs => t == u && as.length == bs.length && (as.zip bs).all (fun p => wmatch p.1 p.2)
+  | _, _ => false
+
+/-- verdict with explicit attribution: `attr` = the listed deviations this case exercises -/
+def verdictAttr (impl cur : T) (specOk : Bool) (attr : List String) : String :=
+  if wmatch cur impl then
+    if specOk then "ok"
+    else if attr.isEmpty then "unattributed " ++ cur.render
+    else "dev " ++ ",".intercalate attr.eraseDups
+  else "mismatch " ++ (if specOk then "spec-ok " else "spec-bad ") ++ cur.render
+
 /-- verdict line:
   ok                          impl = model(cur), oracle holds
   dev <flags>                 impl = model(cur), oracle fails, flags whose toggle changes the model's answer
   unattributed <model>        impl = model(cur), oracle fails, no flag explains it
   repaired <flag>             impl = model(cur with <flag> off), oracle holds
   regress <flag>              impl = model(cur with <flag> on)
-  mismatch spec-ok|spec-bad <model>   no member of the family matches
+  mismatch spec-ok|spec-bad <model>   no member of the family wmatch
 -/
 def verdict (impl cur : T) (alts : List Alt) (specOk : Bool) : String :=
   if impl == cur then
